@@ -618,6 +618,31 @@ impl Control {
                 &format!("{sig}:{tag}"),
                 format!("{tag}: snapshot {} but the requests so far imply {} (line {raw_hex})", now.show(), want.show()),
             );
+            // The configuration plumbing FEEDS other properties: their premises ("with the stall guard disabled",
+            // "in classic mode", "the configured timeout") are what the operator asked for, and the scheduler /
+            // housekeeping read this very snapshot.  A field that is not what the requests so far imply is a failing
+            // input for the property whose premise it is.
+            if !want.stall && now.stall {
+                mon.fail(
+                    "C12",
+                    "guard-switched-back-on",
+                    format!("{tag}: the requests so far switched the stall guard OFF, the snapshot every routing decision reads says stall_deselect=true ({}; line {raw_hex}): off no longer means baseline", now.show()),
+                );
+            }
+            if want.mode == "classic" && now.mode != "classic" {
+                mon.fail(
+                    "C10",
+                    "classic-mode-not-in-force",
+                    format!("{tag}: the requests so far selected classic mode, the snapshot the scheduler reads says {} (line {raw_hex})", now.show()),
+                );
+            }
+            if want.timeout != now.timeout {
+                mon.fail(
+                    "C08",
+                    "configured-timeout-not-in-force",
+                    format!("{tag}: the requests so far configured conn_timeout_ms={}, the snapshot housekeeping reads says {} (line {raw_hex})", want.timeout, now.timeout),
+                );
+            }
         }
         // ... and in the next status (asked through the real dispatcher)
         let cfg = self.slots[idx].cfg.clone();
